@@ -393,18 +393,98 @@ pub fn check_conc(c: &ConcCase) -> Outcome {
     o
 }
 
+// ---------------------------------------------------------------- contention part
+
+/// Free-running contention: `threads` threads hammer a tiny key space for `iters` operations each (operation
+/// streams derived from `seed`), then the quiescent cache is probed. Checked: no observed size above the capacity,
+/// and after `capacity + 2` further puts of fresh keys the size is still within the capacity and the newest key is
+/// resident — a recency entry left behind by a racing get/put (a key in the queue that is not in the map) shows
+/// up here, because its eviction removes nothing.
+#[derive(Clone, Debug, Serialize, Deserialize)]
+pub struct StressCase {
+    pub capacity: usize,
+    pub threads: u8,
+    pub iters: u32,
+    pub keys: u8,
+    pub seed: u64,
+}
+
+pub fn check_stress(c: &StressCase) -> Outcome {
+    use std::sync::atomic::{AtomicUsize, Ordering};
+    let mut o = Outcome::new();
+    let cache = Arc::new(ObjectCache::new(c.capacity));
+    let vals = [Arc::new(PdfObject::Integer(0)), Arc::new(PdfObject::Integer(1))];
+    let over = Arc::new(AtomicUsize::new(0));
+    let n = c.threads.clamp(2, 4) as usize;
+    let barrier = Arc::new(std::sync::Barrier::new(n));
+    let mut handles = Vec::new();
+    for t in 0..n {
+        let (cache, vals, over, barrier, c) = (cache.clone(), vals.clone(), over.clone(), barrier.clone(), c.clone());
+        handles.push(std::thread::spawn(move || {
+            let mut x = c.seed ^ (t as u64 + 1).wrapping_mul(0x9E37_79B9_7F4A_7C15) | 1;
+            barrier.wait();
+            for _ in 0..c.iters {
+                x ^= x << 13;
+                x ^= x >> 7;
+                x ^= x << 17;
+                let k = ((x >> 8) % c.keys.max(1) as u64) as u8;
+                match (x >> 40) % 20 {
+                    0 => {
+                        let l = cache.stats().size;
+                        if l > c.capacity {
+                            over.fetch_max(l, Ordering::SeqCst);
+                        }
+                    }
+                    // thread 0 mostly writes, the others mostly read (a reader's hit racing with an eviction)
+                    r if (t == 0) == (r < 15) => cache.put(oid(k), vals[(x & 1) as usize].clone()),
+                    _ => {
+                        let _ = cache.get(&oid(k));
+                    }
+                }
+            }
+        }));
+    }
+    for h in handles {
+        if h.join().is_err() {
+            o.fail("C29/no-panic", "contention", "a cache thread panicked");
+            return o;
+        }
+    }
+    o.nontrivial(true);
+    o.label(format!("threads={n}"));
+    let seen = over.load(Ordering::SeqCst);
+    if seen > c.capacity {
+        o.fail("C29/never-more-than-capacity", "ObjectCache,contention", format!("stats().size {seen} > capacity {} while threads were running", c.capacity));
+    }
+    // quiescent probe
+    for j in 0..(c.capacity + 2) {
+        cache.put(oid(100 + j as u8), vals[0].clone());
+    }
+    let size = cache.stats().size;
+    if size > c.capacity {
+        o.fail("C29/never-more-than-capacity", "ObjectCache,after-contention", format!("after {} further puts of fresh keys stats().size is {size} > capacity {}", c.capacity + 2, c.capacity));
+    }
+    if c.capacity > 0 && cache.get(&oid(100 + (c.capacity + 1) as u8)).is_none() {
+        o.fail("C29/get-returns-latest-unless-evicted", "ObjectCache,after-contention", "the key put last into the quiescent cache is not resident".to_string());
+    }
+    o
+}
+
 fn run(ctx: &Ctx) {
     exhaustive(ctx);
     let random = || (0usize..9, prop::collection::vec(op_strategy(6), 1..200)).prop_map(|(capacity, ops)| Case { capacity, ops });
     ctx.run_sub("random", ctx.tier.pick(20_000, 400_000), random, check);
     let conc = || (0usize..4, prop::collection::vec(prop::collection::vec((op_strategy(3), 0u8..3), 1..5), 2..4)).prop_map(|(capacity, threads)| ConcCase { capacity, threads });
     ctx.run_sub("concurrent", ctx.tier.pick(3_000, 60_000), conc, check_conc);
+    let stress = || (1usize..4, 2u8..5, 2_000u32..6_000, any::<u64>()).prop_flat_map(|(capacity, threads, iters, seed)| ((capacity as u8 + 1)..(capacity as u8 + 4)).prop_map(move |keys| StressCase { capacity, threads, iters, keys, seed }));
+    ctx.run_sub("contention", ctx.tier.pick(400, 8_000), stress, check_stress);
 }
 
 fn replay(ctx: &Ctx, sub: &str, case: &Value) -> Result<Outcome, String> {
     match sub.trim_start_matches("replay:") {
         "exhaustive" | "random" => ctx.replay_case::<Case, _>(case, check),
         "concurrent" => ctx.replay_case::<ConcCase, _>(case, check_conc),
+        "contention" => ctx.replay_case::<StressCase, _>(case, check_stress),
         s => Err(format!("unknown sub-check {s}")),
     }
 }
